@@ -6,7 +6,8 @@ from pyvc import driver
 mods = sys.argv[1].split(",")
 jobs = int(os.environ.get("JOBS", "16"))
 t0 = time.time()
-ctx, loaded, results = driver.run_modules(mods, {}, jobs=jobs)
+only = os.environ.get("TASK")
+ctx, loaded, results = driver.run_modules(mods, {"z3_timeout_ms": int(os.environ.get("ZT", "10000")), "only_tasks": only.split(",") if only else None}, jobs=jobs)
 n = bad = 0
 for r in results:
     if r.get("error"):
